@@ -324,6 +324,12 @@ func (cc *Session) Run() {
 		cc.manager.GetStatisticManager().AddReadFlowCount(cc.namespace, len(data))
 		cc.executor.SetContextNamespace()
 		cc.clearKsConns(cc.executor.nsChangeIndexOld)
+		if !cc.executor.isInTransaction() {
+			// The configuration change (if any) has been handled: the connections pinned
+			// before it are dropped. What this command pins or starts belongs to the new
+			// configuration and must not be dropped / cut off again when it finishes.
+			cc.executor.nsChangeIndexOld = cc.executor.GetNamespace().namespaceChangeIndex
+		}
 
 		cmd := data[0]
 		data = data[1:]
